@@ -253,6 +253,27 @@ def pwNorm (sqrt : K → K) (pw : List K) (d m : Nat) (x : List K) : List K :=
     sqrt (sumK ((List.range d).map fun k =>
       let v := x.getD (k * m + i) 0; pw.getD k 1 * (v * v)))
 
+/-- One point of `Huber._call` given the (point-wise) norm `t ≥ 0` there: `t²·(1/(2γ))`,
+overwritten by `t − γ/2` where `t ≥ γ`; `t` itself for `γ = 0` (`tmp = norm`). -/
+def huberValK (gam t : K) : K :=
+  if 0 < gam then (if gam ≤ t then t - gam / (1 + 1) else t * t * (1 / ((1 + 1) * gam))) else t
+
+/-- Objective of the proximal problem of a group functional on a power space `X^d` (components
+laid out one after the other, `m` points each; `pw` the product-space weights, `b` the weights of
+the base space `X`), as the real code evaluates it: `f(z) + ‖z − x‖²/(2σ)` with
+`f(z) = PointwiseNorm-based value .inner(one)` `= Σ_i b_i φ(|z(i) − g(i)|_pw)` and the
+product-space norm `‖v‖² = Σ_k pw_k Σ_i b_i v_k(i)²`:
+`Σ_i b_i (φ(|z(i) − g(i)|_pw) + Σ_k pw_k (z_k(i) − x_k(i))²/(2σ))`.
+`φ = (lam · )` for `lam * GroupL1Norm(·, 2)`, `φ = huberValK γ` for `Huber`, `φ = 0` for the bare
+quadratic. -/
+def groupObj (sqrt : K → K) (phi : K → K) (pw : List K) (d m : Nat) (b : List K)
+    (g : Option (List K)) (s : K) (x z : List K) : K :=
+  let nrm := pwNorm sqrt pw d m (idxMap z fun i zi => zi - gAt g i)
+  sumK ((List.range m).map fun i =>
+    b.getD i 0 * (phi (nrm.getD i 0) + sumK ((List.range d).map fun k =>
+      let e := z.getD (k * m + i) 0 - x.getD (k * m + i) 0
+      pw.getD k 1 * (e * e)) / ((1 + 1) * s)))
+
 /-- Matrix-vector products for `proximal_composition` with a `MatrixOperator` on unweighted
 `rn`: `L x` and `L^T y` (the adjoint). -/
 def matVec (L : List (List K)) (x : List K) : List K :=
